@@ -1,5 +1,6 @@
 import Thanos.Model.Capnp
 import Thanos.Lemmas.Capnp
+import Thanos.Lemmas.CapnpOrder
 import Thanos.Generated.Facts
 /-
   C25 — Cap'n Proto replication encoding is lossless.
@@ -79,6 +80,22 @@ theorem intern_index (b : Builder) (h : WF b) (s : Str) (later : List Str) :
   obtain ⟨wN, gN⟩ := key later b1 w1 g1
   rw [decode_marshal_symbols bN wN]
   exact gN
+
+/-- every table built by `AddEntry` calls is well formed -/
+theorem wf_of_adds (ss : List Str) : WF (ss.foldl (fun b x => (addEntry b x).1) Builder.empty) := by
+  have : ∀ (l : List Str) (b : Builder), WF b → WF (l.foldl (fun b x => (addEntry b x).1) b) := by
+    intro l
+    induction l with
+    | nil => intro b h; exact h
+    | cons x l ih => intro b h; exact ih _ (addEntry_spec b x h).1
+  exact this ss _ wf_empty
+
+/-- `marshalSymbols` ranges over a Go map: for **every** order in which the runtime may visit the
+    entries (every permutation), the loop writes the same offsets and the same data buffer. -/
+theorem C25_symbols_any_order (ss : List Str) (order : List Entry) :
+    let b := ss.foldl (fun b x => (addEntry b x).1) Builder.empty
+    order.Perm b.entries → marshalSymbolsIn order b.entries.length b.size = marshalSymbols b :=
+  fun hp => marshalSymbols_any_order _ (wf_of_adds ss) order hp
 
 /-! ### the message -/
 
